@@ -73,6 +73,7 @@ struct Inner {
     sections: u64,
     num_threads: usize,
     sink: Option<std::fs::File>,
+    mode_t: Option<usize>,
     counters: BTreeMap<&'static str, u64>,
 }
 
@@ -99,6 +100,7 @@ impl Ctx {
             sections: 0,
             num_threads: 4,
             sink: None,
+            mode_t: None,
             counters: BTreeMap::new(),
         })))
     }
@@ -196,6 +198,11 @@ impl Ctx {
     /// Size of the simulated pool as reported by `rayon::current_num_threads()`.
     pub fn set_num_threads(&self, n: usize) {
         self.0.lock().unwrap().num_threads = n.max(1);
+    }
+    /// Mode T: run top-level parallel sections on this many real threads under the baton
+    /// scheduler (`None` = Mode P, the default).
+    pub fn set_mode_t(&self, workers: Option<usize>) {
+        self.0.lock().unwrap().mode_t = workers;
     }
     pub fn set_sched(&self, p: SchedPolicy) {
         self.0.lock().unwrap().sched = p;
@@ -320,5 +327,27 @@ impl simhook::SimHooks for Hooks {
     }
     fn num_threads(&mut self) -> usize {
         (self.0).0.lock().unwrap().num_threads
+    }
+    fn mode_t(&mut self, n: usize) -> Option<(usize, simhook::baton::Chooser)> {
+        let w = (self.0).0.lock().unwrap().mode_t?;
+        self.0.event("section-threads", n as u64, w as u64);
+        (self.0).0.lock().unwrap().sections += 1;
+        let ctx = self.0.clone();
+        let chooser: simhook::baton::Chooser = Arc::new(Mutex::new(move |k: usize, kind: &'static str| {
+            let v = ctx.draw(Stream::S, k as u64, kind) as usize;
+            ctx.event("baton", k as u64, v as u64);
+            ctx.count(match kind {
+                "lock" => "baton-choice-at-lock",
+                "unlock" => "baton-choice-at-unlock",
+                "locked" => "baton-choice-inside-critical-section",
+                "contended" => "baton-choice-at-contended-lock",
+                "claim" => "baton-choice-at-claim",
+                "claim-item" => "baton-choice-of-item",
+                "finish" => "baton-choice-at-finish",
+                _ => "baton-choice-other",
+            });
+            v
+        }));
+        Some((w, chooser))
     }
 }
